@@ -229,6 +229,10 @@ func reusePairs(version string) []pair {
 		mk("kick-by-moderator-unparsable-pl", kick, create(C), plBad, mem(S, "join"), mem(T, "join")),
 		mk("message-no-create", msg, plA, mem(S, "join")),
 		mk("power-levels-by-moderator", authgen.Ev{Type: "m.room.power_levels", StateKey: evgen.S(""), Sender: S, Content: `{"users":{"` + S + `":50,"` + X + `":50},"invite":49}`, Prev: []string{"$p" + strings.Repeat("x", 42)}}, create(C), plA, mem(S, "join")),
+		// a current power-levels event WITH an events map; a candidate that names a type the current levels lack (compared
+		// key by key with the current map), then a state event of that type by a user between events_default and state_default
+		mk("power-levels-naming-topic", authgen.Ev{Type: "m.room.power_levels", StateKey: evgen.S(""), Sender: S, Content: `{"users":{"` + S + `":50,"` + X + `":50,"` + T + `":25},"events":{"m.room.name":50,"m.room.topic":10},"invite":50}`, Prev: []string{"$p" + strings.Repeat("x", 42)}}, create(C), pl("E", `{"users":{"`+S+`":50,"`+X+`":50,"`+T+`":25},"events":{"m.room.name":50},"invite":50}`), mem(S, "join")),
+		mk("topic-by-level-25-user", authgen.Ev{Type: "m.room.topic", StateKey: evgen.S(""), Sender: T, Content: `{"topic":"t"}`, Prev: []string{"$p" + strings.Repeat("x", 42)}}, create(C), pl("E", `{"users":{"`+S+`":50,"`+X+`":50,"`+T+`":25},"events":{"m.room.name":50},"invite":50}`), mem(T, "join")),
 		mk("invite-by-moderator", authgen.Ev{Type: "m.room.member", StateKey: evgen.S(T), Sender: S, Content: `{"membership":"invite"}`, Prev: []string{"$p" + strings.Repeat("x", 42)}}, create(C), plA, mem(S, "join")),
 	}
 	if !refversions.Get(version).DomainlessRoomIDs {
@@ -262,10 +266,21 @@ type reuseCase struct {
 func buildPairs(version string) (map[string]*built, []string, error) {
 	out := map[string]*built{}
 	var names []string
+	// one PDU object per distinct state event, shared by every pair that uses it (state resolution, too, meets the same event
+	// object again and again): whatever a checker remembers by object identity then really comes back
+	sharedPDU := map[string]gmsl.PDU{}
 	for _, p := range reusePairs(version) {
 		st, err := p.Sc.StatePDUs()
 		if err != nil {
 			return nil, nil, fmt.Errorf("%s: %v", p.Name, err)
+		}
+		for i, e := range st {
+			k := e.EventID() + "|" + string(e.JSON())
+			if prev, ok := sharedPDU[k]; ok {
+				st[i] = prev
+			} else {
+				sharedPDU[k] = e
+			}
 		}
 		ev, err := p.Sc.EventPDU()
 		if err != nil {
